@@ -18,7 +18,7 @@ CASE_TIMEOUT = 120
 LEVEL = {"C13": "exploration"}
 PLAN = {"C13": {
     "quick": {"runs": 24000, "wall_cap": 110, "chunk": 100, "selftest": 8},
-    "thorough": {"runs": 800000, "wall_cap": 1500, "chunk": 400, "selftest": 40},
+    "thorough": {"runs": 900000, "wall_cap": 1700, "chunk": 400, "selftest": 40},
 }}
 RULE = {"C13": (
     "one evaluation = one seeded history of 4-30 calls (einsum, einsum_expression, array_contract, "
